@@ -20,7 +20,7 @@ SPEC = {
              "(eq, __cmp__), free_symbols, dumps -> loads, evalf, diff by each free symbol, subs (exceptions allowed): any crash, "
              "sanitizer report or abort is the violation. Non-trivial, measured by the target: loads returned an object; distinct by "
              "hash of the bytes given to loads."),
-    "assumptions": ["allocation requests above 64 MiB throw std::bad_alloc in the target (replaced operator new) as they would without "
+    "assumptions": ["allocation requests above 4 MiB throw std::bad_alloc in the target (replaced operator new) as they would without "
                     "ASan; GMP requests above 256 MiB, timeouts and out-of-memory are resource noise, counted, never reported",
                     "a returned non-canonical object is not by itself a violation",
                     "libFuzzer campaigns are only approximately reproducible; the saved artifact is the reproducible unit"],
